@@ -1,0 +1,28 @@
+//go:build verif
+// +build verif
+
+// Contracts for deductive verification (govc, /verif). Comment-only file.
+
+package ptree
+
+// ======================= C11: permission tree =======================
+//@ func PermNode.FindChild
+//@   property C11
+//@   ensures found_is_child_with_name: result != nil ==> pn != nil && result.Name == name && (exists j int :: 0 <= j && j < len(pn.Children) && pn.Children[j] == result)
+//@   ensures nil_iff_no_such_child: result == nil ==> pn == nil || (forall k int :: 0 <= k && k < len(pn.Children) ==> pn.Children[k].Name != name)
+//@   loop 1 invariant scanned: 0 <= $i && $i <= len(pn.Children) && pn != nil && (forall k int :: 0 <= k && k < $i ==> pn.Children[k].Name != name)
+
+// Every signer is counted once: a node is appended to the children of the node
+// being extended only after FindChild ON THAT NODE found no child of that name;
+// nodes are created only along signer URIs, and for an account tree only along
+// URIs whose first component is the root account.
+//@ func buildPermTree
+//@   property C11
+//@   requires root_given: root != nil
+//@   local pnode *PermNode
+//@   local childNode *PermNode
+//@   local newNode *PermNode
+//@   loop 2 invariant account_tree_only_under_root: (!rootIsAccount || (aklen >= 2 && aklist[0] == root.Name && currentIdx >= 1)) && root != nil && root <= allocTop() && aklen == len(aklist)
+//@   at PermNode.FindChild assert searches_node_being_extended: recv == pnode && $0 == akname
+//@   at AclManager.GetAccountACL assert only_missing_children_created: childNode == nil && $0 == akname && (!rootIsAccount || (aklen >= 2 && aklist[0] == root.Name && currentIdx >= 1))
+//@   at fieldwrite.Children assert appended_to_searched_node: $0 == pnode && childNode == nil && newNode.Name == akname && newNode.Status == 1
